@@ -368,10 +368,11 @@ type c20Version struct {
 }
 
 type c20Config struct {
-	Versions []c20Version     `json:"versions"`
-	Unpub    []operation.Type `json:"unpublished_store_types"`
-	ByTime   bool             `json:"ledger_protocol_version_is_transaction_time"`
-	T0       uint64           `json:"t0"`
+	ExactHashLimit bool             `json:"hash_length_limit_exactly_the_hash_length,omitempty"`
+	Versions       []c20Version     `json:"versions"`
+	Unpub          []operation.Type `json:"unpublished_store_types"`
+	ByTime         bool             `json:"ledger_protocol_version_is_transaction_time"`
+	T0             uint64           `json:"t0"`
 }
 
 type c20World struct {
@@ -415,6 +416,11 @@ func newC20World(cfg c20Config, tb *world.Table) *c20World {
 		p.GenesisTime = cv.Genesis
 		p.MaxOperationCount = cv.Max
 		p.MaxOperationTimeDelta = uint64(cv.MDelta)
+		if cfg.ExactHashLimit {
+			// the hash-length limit sits exactly at the length of the hashes in use (inclusive on both sides of the pipeline)
+			p.MultihashAlgorithms = []uint{world.SHA256}
+			p.MaxOperationHashLength = 46
+		}
 		o := world.VersionOpts{CAS: cas, OpStore: w.store, ParserOpts: []operationparser.Option{operationparser.WithAnchorTimeValidator(c20TimeValidator{clk: w.clk})}}
 		if len(cfg.Unpub) > 0 {
 			o.TxnProcOpts = []txnprocessor.Option{txnprocessor.WithUnpublishedOperationStore(w.unpub, cfg.Unpub)}
